@@ -278,7 +278,7 @@ type GenOpt struct {
 	AllowKnown bool
 }
 
-var mainTypes = []string{"Ints", "Scalars", "Nulls", "Sers", "Embs", "Defs", "Comp", "Keyed", "StrKey"}
+var mainTypes = []string{"Ints", "Scalars", "Nulls", "Sers", "Embs", "Defs", "Comp", "Keyed", "StrKey", "UnixU"}
 var mapTypes = []string{"Ints", "Scalars", "Keyed", "Comp", "Embs"}
 
 func genInput(r *lib.Rng, id int, g GenOpt) Input {
@@ -294,7 +294,7 @@ func genInput(r *lib.Rng, id int, g GenOpt) Input {
 		}
 	}
 	isMap := strings.HasPrefix(g.Op, "map")
-	in.NoMMap = g.Type == "Sers" && !g.AllowKnown
+	in.NoMMap = hasSer(d) && !g.AllowKnown
 	if isMap {
 		in.MapKeys = lib.Pick(r, []string{"col", "col", "name"})
 		if g.Type == "Embs" {
@@ -404,13 +404,19 @@ func nonZero(r *lib.Rng, f *FDesc) Val {
 	}
 }
 
+func hasSer(d *Desc) bool {
+	for _, f := range d.Fields {
+		if f.Kind.K == "ser" {
+			return true
+		}
+	}
+	return false
+}
+
 // sig: known-finding signature computed from the INPUT only.
 func sig(in Input) string {
 	d := descOf(in.Type)
-	if in.Type == "UnixU" {
-		return "unixtime-serializer-unsigned-panics"
-	}
-	if in.Type == "Sers" && !in.NoMMap {
+	if hasSer(d) && !in.NoMMap {
 		return "map-read-through-model-with-serializer-field"
 	}
 	if !in.NoRet && in.Op == "maps" {
